@@ -796,7 +796,11 @@ func TestVerifC07Limits(t *testing.T) {
 			restore()
 			t.Logf("rounds=%d deliveries=%d clause=%q %s messages=%v largest envelopes=%v refused as too large=%d storage fault fired=%v %s", res.rounds, res.deliveries, res.clause, res.detail, res.kinds, res.maxEnvelope, res.oversize, res.fired, res.firedLabel)
 			if res.clause != "" {
-				r.Violation("C07|limits:"+sig(l, res.clause, rc.Devs), res.detail, rc)
+				sg := "C07|limits:" + sig(l, res.clause, rc.Devs)
+				if res.fired && len(rc.Devs) == 0 {
+					sg = fmt.Sprintf("C07|limits:%s|%s|cfail(%s)", l.Class, res.clause, res.firedLabel)
+				}
+				r.Violation(sg, res.detail, rc)
 			}
 			r.Eval(rc.Limit)
 			r.States(res.checked)
@@ -879,7 +883,11 @@ func TestVerifC07Limits(t *testing.T) {
 					if res.fired {
 						what += " (storage fault at step " + res.firedLabel + ")"
 					}
-					r.Violation("C07|limits:"+sig(l, res.clause, devs), what, vc07LimitReplay{Limit: l.Name, Devs: devs})
+					sg := "C07|limits:" + sig(l, res.clause, devs)
+					if res.fired && len(devs) == 0 {
+						sg = fmt.Sprintf("C07|limits:%s|%s|cfail(%s)", l.Class, res.clause, res.firedLabel)
+					}
+					r.Violation(sg, what, vc07LimitReplay{Limit: l.Name, Devs: devs})
 				} else {
 					r.Outcome(fmt.Sprintf("limits-rounds:%d", res.rounds))
 					r.AddExtra(fmt.Sprintf("limit_runs_converging_in_%d_rounds", res.rounds), 1)
